@@ -81,9 +81,10 @@ pub fn entry(max: u32, allow_unsupported: bool) -> BoxedStrategy<EntrySpec> {
         prop_oneof![5 => Just(None), 1 => "[a-z]{0,12}".prop_map(Some)],
         prop_oneof![3 => Just(0u16), 1 => Just(2u16), 1 => Just(4u16), 1 => Just(6u16)],
         prop_oneof![3 => Just(0u8), 1 => any::<u8>()],
+        prop_oneof![3 => Just(0u8), 1 => Just(1u8), 1 => Just(2u8)],
     );
     (head, tail)
-        .prop_map(|((nb, method, content, dos_time, dos_date, made_by, external_attr, internal_attr), (comment, mut ceb, mut cea, mut le, zip64, local_zip64, desc, gap, local_name, flags_extra, wk))| {
+        .prop_map(|((nb, method, content, dos_time, dos_date, made_by, external_attr, internal_attr), (comment, mut ceb, mut cea, mut le, zip64, local_zip64, desc, gap, local_name, flags_extra, wk, desc_mode))| {
             // well-formed records of widely used third-party extensions, with valid contents: a reader
             // that starts to interpret one of them must not change what the property pins down (name and
             // comment decoded from the header fields by the flagged encoding, DOS timestamp, mode)
@@ -138,6 +139,7 @@ pub fn entry(max: u32, allow_unsupported: bool) -> BoxedStrategy<EntrySpec> {
                 enc: Enc::None,
                 gap_before: gap,
                 flags_extra,
+                desc_mode,
             }
         })
         .boxed()
